@@ -6,7 +6,7 @@ Strategy: build an operation list that follows the protocol of the real callers
 (TransformStream::write: init_with / append / shift, Stack: push / drain) with a small reference
 simulation under an infinite limit, record every usage level the run goes through, then choose the
 limit M at / next to one of those levels (boundary bias), or 0, or far above, or usize::MAX.
-A malformed stream adds prealloc > M (finding F5), out-of-range shift/drain (caller contract
+A malformed stream adds prealloc > M (preallocation clamped to M) / > isize::MAX (dropped), out-of-range shift/drain (caller contract
 violations = panics on both sides) and unparsable tokens.
 """
 
@@ -138,9 +138,9 @@ def gen_ops(rng, tier, prealloc, isz, malformed):
 def repair(rng, toks, M, prealloc, isz):
     """Replay under the real limit M (failed charges stay) and clamp shift/drain arguments that the
     failures made out of range, so that the run keeps going after an error."""
-    usage, acap, alen, vcap, vlen = prealloc, prealloc, 0, 0, 0
-    if prealloc > M:
-        return toks
+    # Arena::new clamps the preallocation to the limit; above isize::MAX the reservation is dropped
+    size = min(prealloc, M)
+    usage, acap, alen, vcap, vlen = (size, size, 0, 0, 0) if size <= ISIZE_MAX else (0, 0, 0, 0, 0)
     out = []
     for t in toks:
         c, arg = t[0], (int(t[1:]) if len(t) > 1 else 1)
@@ -209,12 +209,14 @@ def one(rng, tier):
     if malformed and rng.random() < 0.12:
         # reservation larger than isize::MAX: the charge may pass, try_reserve_exact cannot
         prealloc = rng.choice([ISIZE_MAX + 1, USIZE_MAX, ISIZE_MAX + 12345])
-        M = rng.choice([USIZE_MAX, USIZE_MAX, ISIZE_MAX, prealloc])
+        # (a limit in [2^40, isize::MAX] would make the clamped reservation a real multi-terabyte
+        #  allocation, whose failure is outside the model: "the allocator does not fail")
+        M = rng.choice([USIZE_MAX, USIZE_MAX, ISIZE_MAX + 1, prealloc, rng.randrange(0, 5000)])
     elif malformed and rng.random() < 0.5 and prealloc > 0:
-        M = rng.randrange(0, prealloc)  # F5
+        M = rng.randrange(0, prealloc)  # preallocation does not fit: clamped to M (was finding F5)
     elif M < prealloc and rng.random() < 0.7:
         M = prealloc  # keep most cases inside the theorem's hypothesis
-    if not malformed:
+    if not malformed or rng.random() < 0.7:
         toks = repair(rng, toks, M, prealloc, isz)
     if malformed and rng.random() < 0.1:
         toks.append(rng.choice(["x3", "a", "p-1", "s", "a1x"]))
@@ -235,6 +237,7 @@ def stats(cases, obs):
         "with_err": 0,
         "all_ok_nonempty": 0,
         "panic_prealloc": 0,
+        "prealloc_not_fitting": 0,
         "panic_shift_or_drain": 0,
         "bad_case": 0,
         "no_ops": 0,
@@ -258,6 +261,8 @@ def stats(cases, obs):
         if f[0] == "0":
             d["limit_zero"] += 1
         per_size[f[2]] = per_size.get(f[2], 0) + 1
+        if int(f[1]) > int(f[0]) or int(f[1]) > ISIZE_MAX:
+            d["prealloc_not_fitting"] += 1
         ne = main.count(" err:")
         no = main.count(" ok:")
         d["steps_ok"] += no
